@@ -71,6 +71,12 @@ TwoHeaders ==
                                                           cs \in States(HInt) \cup States(HArrStrMin1)} }
 TwoOK(h) == IF h.present THEN h.cs \in States(h.hs) ELSE h.cs = <<>>
 
+(* one header on two field lines *)
+TwoLines ==
+   {[Hdr("X-A", hs, rq, FALSE, TRUE, l1) EXCEPT !.text = Concat(l1)] @@ [cs2 |-> l2, text2 |-> Concat(l2)] :
+       hs \in {HInt, HArrInt, HArrIntMax2, HStr, HArrStrMin1}, rq \in BOOLEAN,
+       l1 \in {<<"1">>, <<"a">>, <<"1", ",", "2">>}, l2 \in {<<"2">>, <<"a">>, <<>>}}
+
 (* a header declared under the name Content-Type (in any letter case: header names are case-insensitive, RFC 9110)  *)
 (* "SHALL be ignored" (OAS 3.0.3, Response Object): the content type is checked against `content`, not here          *)
 CtCs == <<"a", "p", "p", "l", "i", "c", "a", "t", "i", "o", "n", "/", "j", "s", "o", "n">>
